@@ -24,7 +24,7 @@ DISTINCT_MEASURE = ('distinct (config-class, effect-kind, prefix, phase) tuples;
                     '(checkpoint rounds present, torn flag, phase, crashes so far)')
 PROBES = ('crash_inside_checkpoint_write', 'crash_between_save_and_delete',
           'crash_during_final_eval', 'restart_with_newest_eq_last_round',
-          'restart_twice_without_progress', 'keep_gt_1_resume', 'zero_rounds',
+          'restart_twice_without_progress', 'keep_gt_1_resume', 'zero_rounds', 'soft_interrupt',
           'junk_files_present', 'real_fedavg_run', 'multi_write_checkpoint')
 ASSUMPTIONS = [
     'process-crash model: rename/remove are atomic and durable at once; power loss (rename '
@@ -373,7 +373,12 @@ class _Checker:
                f'after saving round {saved}: checkpoints {rounds}')
 
 
-def _run_process(cfg, fs, plan_, golden_states, viols, counters, trace, incarnation):
+class SimInterrupt(BaseException):
+  """Soft crash: an interrupt (KeyboardInterrupt / SIGTERM handler / failing step) raised inside the loop; handlers and
+  `finally` blocks of the dying process DO run and the file system is still usable while the exception unwinds."""
+
+
+def _run_process(cfg, fs, plan_, golden_states, viols, counters, trace, incarnation, interrupt_at=None):
   """One process incarnation. Returns dict(status, state_fp, rec, effects)."""
   from vsim import boot, simfs
   from fedjax.training import federated_experiment as fe
@@ -388,6 +393,8 @@ def _run_process(cfg, fs, plan_, golden_states, viols, counters, trace, incarnat
   def on_marker(what):
     rec.markers += 1
     chk.on_marker(fs, what)
+    if interrupt_at is not None and rec.markers - 1 == interrupt_at:
+      raise SimInterrupt(f'interrupt before marker#{interrupt_at}:{what}')
 
   newest_before = max(_ckpt_rounds(fs), default=None)
   alg, sampler, config, periodic, final_map = _build(cfg, rec, fs, on_marker)
@@ -398,6 +405,8 @@ def _run_process(cfg, fs, plan_, golden_states, viols, counters, trace, incarnat
     res.update(status='done', state_fp=_fp(state))
   except simfs.SimCrash as e:
     res.update(status='crashed', where=str(e))
+  except SimInterrupt as e:
+    res.update(status='crashed', where=str(e), soft=True)
   except Exception as e:  # noqa - H1: anything else is the system failing
     import traceback
     tb = traceback.extract_tb(e.__traceback__)
@@ -600,6 +609,30 @@ def execute(sc):
       if len(viols) > before:
         for v in viols[before:]:
           v.setdefault('detail', {'point': [k, when, pf]})
+    # soft crashes: an interrupt raised at every step boundary of the loop (before each sample / apply / evaluation
+    # call); handlers of the dying process run with a live file system, then the process ends
+    if only is None or any(p_[1] == 'interrupt' for p_ in only):
+      for m in range(g['rec'].markers):
+        if only is not None and [m, 'interrupt', 'all'] not in only:
+          continue
+        fs = _fresh_fs(cfg)
+        res = _run_process(cfg, fs, {}, golden_states, _sink(viols_add), None, trace, 0, interrupt_at=m)
+        evaluations += 1
+        sim_rounds += res['rec'].applies
+        if res['status'] == 'error':
+          viols_add('H1', f"H1:first-run-raises:{res['error']}@{res['site']}", res['msg'])
+          continue
+        if res['status'] == 'crashed':
+          faults.inc('interrupt_at_step_boundary')
+          probes.inc('soft_interrupt')
+          key = hashlib.sha256(repr((cfg_class, 'interrupt', m % 4)).encode()).hexdigest()[:12]
+          distinct.add(key)
+          if _ckpt_rounds(fs):
+            nontrivial.add(key)
+        before = len(viols)
+        finish(fs, 1, f'interrupt before step marker {m}')
+        for v in viols[before:]:
+          v.setdefault('detail', {'point': [m, 'interrupt', 'all']})
   else:
     fs = _fresh_fs(cfg)
     crashes = 0
